@@ -16,6 +16,19 @@ ChainOk(r) ==
      /\ NoDup(r.out)
      /\ \A i \in 1..Len(r.out) : ParseKey(r.out[i]).ok
      /\ {ParseKey(r.out[i]).k : i \in 1..Len(r.out)} = Spellings(target)
-RecOk(r) == CASE r.kind = "skipped" -> TRUE [] r.kind = "chain" -> ChainOk(r) [] OTHER -> FALSE
+\* very long chains are given run-length encoded: <<letter, count>> segments.  n equal steps are n mod 12 dominants /
+\* subdominants (twelve fifths return to the start: CircleMC) or n mod 2 relatives / parallels (involutions)
+Period(c) == IF c \in {"d", "s"} THEN 12 ELSE 2
+RECURSIVE FoldRuns(_, _)
+FoldRuns(runs, s) == IF runs = <<>> THEN s ELSE FoldRuns(Tail(runs), Iter(Head(runs)[1], Head(runs)[2] % Period(Head(runs)[1]), s))
+LongChainOk(r) ==
+  LET pk == ParseKey(r.key)
+      target == FoldRuns(r.runs, AbsOf(pk.k))
+  IN /\ pk.ok /\ Supported(pk.k) /\ \A i \in 1..Len(r.runs) : r.runs[i][1] \in Convs /\ r.runs[i][2] >= 0
+     /\ r.terminated /\ r.ok                       \* every chain of any length succeeds
+     /\ NoDup(r.out)
+     /\ \A i \in 1..Len(r.out) : ParseKey(r.out[i]).ok
+     /\ {ParseKey(r.out[i]).k : i \in 1..Len(r.out)} = Spellings(target)
+RecOk(r) == CASE r.kind = "skipped" -> TRUE [] r.kind = "chain" -> ChainOk(r) [] r.kind = "longchain" -> LongChainOk(r) [] OTHER -> FALSE
 Inv == l <= Len(Recs) => RecOk(Recs[l])
 =============================================================================
